@@ -1291,6 +1291,11 @@ impl PlayCli {
             if t.contains("checkmate!") || t.contains("stalemate!") {
                 return PlayEvent::Ended(last, log);
             }
+            // only legal moves are typed, so an error line comes from the engine's own turn
+            // (the loop would repeat it for ever)
+            if t.starts_with("error:") {
+                return PlayEvent::Ended(last, log);
+            }
             // diagram rows: "8 │ ♖ │ ♘ │ ... │ 8"
             let cells: Vec<&str> = t.split('│').collect();
             if cells.len() == 10 {
